@@ -1,3 +1,3 @@
-(* _client.py :: ncrypt_protect_secret :: ('callarg', '_sync_get_key', 0, 1) :  sd *)
-Definition k_onl_prot_arg1 (sd : list Z) : list Z :=
-  sd.
+(* _client.py :: ncrypt_protect_secret :: shape kernel :  _sync_get_key(... 1: sd  [= ProtectionDescriptor.parse(protection_descriptor).get_target_sd()] ...) *)
+Definition k_onl_prot_arg1 (target_sd : list Z) : list Z :=
+  target_sd.
